@@ -158,10 +158,9 @@ Lemma token_with_safe (ptext : slice -> range -> context -> res context) (TOk : 
   (forall t r c, TOk (TText t r) -> Core c ->
      safeA (ptext t r c) (fun c' => Core c' /\ c_tag_name c' = c_tag_name c)) ->
   forall tok c, TOk tok -> Core c -> (tok_pre tok = true -> InTag c) ->
-    allow P_debug_assert \/ NsRoom c ->
     safeA (token_with text ptext tok c) (fun c' => Core c' /\ TagPost tok c c').
 Proof.
-  intros HTOk Hptext tok c Htok Hc Htag Hroom. pose proof (HTOk _ Htok) as Hok.
+  intros HTOk Hptext tok c Htok Hc Htag. pose proof (HTOk _ Htok) as Hok.
   destruct tok as [target content r|txt r|name value|prefix local start|r qn eq prefix local value|e r|txt r|txt r];
     cbn [token_with TagPost].
   - eapply safeP_bind; [apply safe_safeP, reset_after_text_safe; auto|].
@@ -183,7 +182,6 @@ Proof.
     intros c1 (H1 & Ha1 & Ht1 & Hn1). cbv beta.
     eapply safeP_mono; [apply process_element_safe; auto|].
     + destruct e; auto; unfold InTag in *; rewrite Ht1; apply Htag; reflexivity.
-    + destruct Hroom as [H|H]; auto. right. unfold NsRoom in *. rewrite Hn1. exact H.
     + intros c2 [H2 Ht2]. split; auto. congruence.
   - apply Hptext; auto.
   - apply safe_safeP, process_cdata_safe; auto.
@@ -195,7 +193,8 @@ End WithText.
 (* the nesting levels                                                                       *)
 (* ---------------------------------------------------------------------------------------- *)
 
-Definition allowD : panic_site -> Prop := fun p => p = P_debug_assert.
+(* no panic site is tolerated *)
+Definition allowD : panic_site -> Prop := fun _ => False.
 
 Section Levels.
 Variable text : bytes.
@@ -216,8 +215,7 @@ Proof.
   assert (Hc : Core c) by (destruct (tok_pre tok); [apply Hst|exact Hst]).
   eapply safeP_mono.
   { apply (token_with_safe text Hvalid allowD ptext (TokOk text)); auto.
-    - intros E. rewrite E in Hst. apply Hst.
-    - left; reflexivity. }
+    intros E. rewrite E in Hst. apply Hst. }
   intros c' [H1 H2]. unfold St, Iout, Iin.
   destruct tok; cbn [tok_post tok_pre TagPost] in *; auto.
   split; auto. unfold InTag in *. rewrite H2. apply Hst.
@@ -239,12 +237,11 @@ Qed.
 
 (* the callback, every token, any state satisfying the invariant and the tag protocol *)
 Lemma token_safe tok c : TokOk text tok -> Core c -> (tok_pre tok = true -> InTag c) ->
-  safeP allowD (token text tok c) (fun c' => Core c' /\ TagPost tok c c').
+  safe (token text tok c) (fun c' => Core c' /\ TagPost tok c c').
 Proof.
-  intros Htok Hc Htag. unfold token.
+  intros Htok Hc Htag. unfold token. apply safeP_noP.
   apply (token_with_safe text Hvalid allowD (process_text text) (TokOk text)); auto.
-  - intros; apply process_text_safe; auto.
-  - left; reflexivity.
+  intros; apply process_text_safe; auto.
 Qed.
 
 (* the initial context satisfies the invariant *)
@@ -264,28 +261,34 @@ Proof.
     + constructor; auto. exact I.
 Qed.
 
+(* the whole tokenizer run with the real callback *)
+Lemma parse_document_token_safe dtd c : Core c ->
+  safe (parse_document text context (token text) dtd c) Core.
+Proof.
+  intros Hc. apply safeP_noP.
+  apply (parse_document_safe text Hvalid context (token text) allowD Iout Iin); auto.
+  apply (callback_ok (process_text text)). apply process_text_safe.
+Qed.
+
 End Levels.
 
 (* ---------------------------------------------------------------------------------------- *)
 (* statements                                                                               *)
 (* ---------------------------------------------------------------------------------------- *)
 
-(* 1. Every token, including text with entity references (nested tokenizer runs): the only
-      panic site that [token] can reach is a debug assertion; the proofs show that it can only
-      be the one of ShortRange::from in resolve_namespaces (every other P_debug_assert site --
-      advance, NodeId::new, parse_next_chunk, process_element -- is proved unreachable with
-      the strict [safe]). *)
-Theorem token_panic_only_debug_assert : forall text tok c p,
-  valid_utf8_b text = true -> Core text c -> TokOk text tok -> (tok_pre tok = true -> InTag c) ->
-  token text tok c = Panic p -> p = P_debug_assert.
+(* Every token, including text with entity references (nested tokenizer runs), in any state
+   that satisfies the invariant [Core] and the protocol of the tokenizer (ElementEnd Open/Empty
+   and Attribute arrive only after an ElementStart: [InTag]). *)
+Theorem token_no_panic : forall text tok c p, valid_utf8_b text = true -> Core text c -> NoPanicTokenizer.TokOk text tok ->
+  (tok_pre tok = true -> InTag c) -> token text tok c <> Panic p.
 Proof.
-  intros text tok c p Hvalid Hc Htok Htag H.
-  pose proof (token_safe text Hvalid tok c Htok Hc Htag) as Hs. rewrite H in Hs. exact Hs.
+  intros text tok c p Hvalid Hc Htok Htag.
+  eapply safe_no_panic. apply token_safe; auto.
 Qed.
-Print Assumptions token_panic_only_debug_assert.
+Print Assumptions token_no_panic.
 
 Theorem token_preserves_core : forall text tok c c',
-  valid_utf8_b text = true -> Core text c -> TokOk text tok -> (tok_pre tok = true -> InTag c) ->
+  valid_utf8_b text = true -> Core text c -> NoPanicTokenizer.TokOk text tok -> (tok_pre tok = true -> InTag c) ->
   token text tok c = Ok c' -> Core text c' /\ TagPost tok c c'.
 Proof.
   intros text tok c c' Hvalid Hc Htok Htag H.
@@ -294,54 +297,40 @@ Qed.
 Print Assumptions token_preserves_core.
 
 (* the whole tokenizer run with the real callback, from the initial context *)
-Theorem parse_document_token_panic_only_debug_assert : forall text opt c0 p,
-  valid_utf8_b text = true -> nodes_limit opt <= u32_max -> init_context text opt = Ok c0 ->
-  parse_document text context (token text) (allow_dtd opt) c0 = Panic p -> p = P_debug_assert.
+Theorem parse_document_token_no_panic : forall text opt c p, valid_utf8_b text = true -> nodes_limit opt <= u32_max ->
+  init_context text opt = Ok c -> parse_document text context (token text) (allow_dtd opt) c <> Panic p.
 Proof.
-  intros text opt c0 p Hvalid Hl Hi H.
-  pose proof (parse_document_safe text Hvalid context (token text) allowD (Iout text) (Iin text)) as Hs.
-  specialize (Hs (callback_ok text Hvalid (process_text text) (process_text_safe text Hvalid))).
-  specialize (Hs (allow_dtd opt) c0 (init_core text opt c0 Hl Hi)). rewrite H in Hs. exact Hs.
+  intros text opt c p Hvalid Hl Hi.
+  eapply safe_no_panic. apply parse_document_token_safe; auto. eapply init_core; eauto.
 Qed.
-Print Assumptions parse_document_token_panic_only_debug_assert.
+Print Assumptions parse_document_token_no_panic.
 
-(* 2. The statement asked for, strictly without any panic.  It is necessarily partial:
-      - a token ElementEnd(Open/Empty) panics (unreachable!()) in a state whose current tag name
-        is empty, e.g. the initial context: the tokenizer never does that (protocol), so the
-        invariant of this statement contains [InTag];
-      - ShortRange::from panics (debug_assert) when namespaces.tree_order is longer than
-        u32::MAX; [NsRoom] gives room for one more element and is NOT preserved;
-      - a Text token with '&' re-enters the tokenizer, which may run any number of tokens, so
-        strictly (because of the previous point) only texts without references are covered
-        here; the texts with references are covered by token_panic_only_debug_assert. *)
-Definition CtxInv (text : bytes) (c : context) : Prop :=
-  Core text c /\ InTag c /\ NsRoom c.
+Theorem parse_document_token_core : forall text opt c c', valid_utf8_b text = true -> nodes_limit opt <= u32_max ->
+  init_context text opt = Ok c -> parse_document text context (token text) (allow_dtd opt) c = Ok c' -> Core text c'.
+Proof.
+  intros text opt c c' Hvalid Hl Hi H.
+  pose proof (parse_document_token_safe text Hvalid (allow_dtd opt) c (init_core text opt c Hl Hi)) as Hs.
+  rewrite H in Hs. exact Hs.
+Qed.
 
-Definition TokOk (text : bytes) (tok : Tokenizer.token) : Prop :=
-  NoPanicTokenizer.TokOk text tok /\
-  match tok with
-  | TText t _ => existsb (fun x => (x =? 38) || (x =? 13)) (slice_bytes text t) = false
-  | _ => True
-  end.
-
+(* The statement in the shape asked for first.  A token ElementEnd(Open/Empty) panics
+   (unreachable!()) in a state whose current tag name is empty, e.g. the initial context; the
+   tokenizer never does that (protocol), so an invariant on the state alone that covers these
+   tokens must contain [InTag] (which holds from the first ElementStart on, and is preserved).
+   [token_no_panic] above is the statement with the protocol made explicit. *)
+Definition CtxInv (text : bytes) (c : context) : Prop := Core text c /\ InTag c.
+Definition TokOk (text : bytes) (tok : Tokenizer.token) : Prop := NoPanicTokenizer.TokOk text tok.
 
 Theorem token_no_panic_partial : forall text tok c p, valid_utf8_b text = true -> CtxInv text c -> TokOk text tok -> token text tok c <> Panic p.
 Proof.
-  intros text tok c p Hvalid (Hc & Htag & Hroom) Htok.
-  eapply safe_no_panic. apply safeP_noP.
-  unfold token.
-  apply (token_with_safe text Hvalid (fun _ => False) (process_text text) (TokOk text)); auto.
-  - intros tok0 H; apply H.
-  - intros t r c0 [H1 H2] Hc0. unfold process_text. rewrite process_text_with_eq. cbv zeta.
-    rewrite H2. cbn [negb]. apply safe_safeP, append_text_safe; auto.
+  intros text tok c p Hvalid (Hc & Htag) Htok. apply token_no_panic; auto.
 Qed.
 Print Assumptions token_no_panic_partial.
 
-(* preservation of the invariant (all of it but NsRoom, see above) *)
 Theorem token_preserves_CtxInv : forall text tok c c', valid_utf8_b text = true -> CtxInv text c -> TokOk text tok ->
-  token text tok c = Ok c' -> Core text c' /\ InTag c'.
+  token text tok c = Ok c' -> CtxInv text c'.
 Proof.
-  intros text tok c c' Hvalid (Hc & Htag & Hroom) [Htok _] H.
+  intros text tok c c' Hvalid (Hc & Htag) Htok H.
   destruct (token_preserves_core text tok c c' Hvalid Hc Htok (fun _ => Htag) H) as [H1 H2].
   split; auto. destruct tok; cbn [TagPost] in H2; auto; unfold InTag in *; rewrite H2; auto.
 Qed.
